@@ -36,6 +36,7 @@ class Message:
     is_dup: bool = False
     use_jar: bool = True
     truncate_at: int | None = None
+    jump_us: int | None = None   # clock event: executed only when no request is ripe (quiescence)
 
 
 class SimNet:
@@ -57,6 +58,9 @@ class SimNet:
         now = simclock.CLOCK.us
         t0 = min(m.deliver_at for m in self.pending)
         ripe = [m for m in self.pending if m.deliver_at <= max(t0, now)]
+        real = [m for m in ripe if m.jump_us is None]
+        if real:
+            ripe = real      # clock events wait until every request ripe at this instant has been served
         ripe.sort(key=lambda m: m.mid)
         if len(ripe) > 1:
             self.sim.world.probe("sched.choice_points")
@@ -64,6 +68,11 @@ class SimNet:
         else:
             msg = ripe[0]
         self.pending.remove(msg)
+        if msg.jump_us is not None:
+            self.sim.clock_jump(msg.actor.id, msg.jump_us)
+            fut = msg.future
+            self.sim.loop.call_soon(lambda: (not fut.done()) and fut.set_result(None))
+            return
         self._deliver(msg)
 
     def _deliver(self, msg: Message) -> None:
@@ -154,6 +163,15 @@ class SimNet:
             return await fut
         finally:
             handle.cancel()
+
+
+    async def clock_event(self, actor: "Actor", us: int) -> None:
+        """Advance the global clock by ``us`` once every request ripe at this instant has been served."""
+        fut = self.sim.loop.create_future()
+        self.pending.append(Message(
+            mid=self._mid(), actor=actor, method="CLOCK", url="", headers={}, body=None,
+            deliver_at=simclock.CLOCK.us, future=fut, jump_us=int(us)))
+        await fut
 
 
 class _ShadowJar(CookieJar):
